@@ -32,8 +32,8 @@ def fn(name, ins, outs=(), emit=(), wait=(), after=()):
     return {"k": "fn", "name": name, "ins": list(ins), "outs": list(outs), "emit": list(emit), "wait": list(wait), "after": list(after)}
 
 
-def gate(name, ins, targets, gk="ifelse"):
-    return {"k": "gate", "name": name, "ins": list(ins), "gk": gk, "targets": list(targets)}
+def gate(name, ins, targets, gk="ifelse", emit=()):
+    return {"k": "gate", "name": name, "ins": list(ins), "gk": gk, "targets": list(targets), "emit": list(emit)}
 
 
 def sub(name, nodes, rin=None, rout=None):
@@ -65,7 +65,7 @@ def outs_of(n):
     if n["k"] == "fn":
         return list(n["outs"]) + list(n["emit"])
     if n["k"] == "gate":
-        return []
+        return list(n.get("emit", []))       # a gate's only outputs are the signals it emits
     return _uniq(n["rout"].get(o, o) for o in all_outs(n["nodes"]))
 
 
@@ -75,7 +75,7 @@ def leaf_producers(n, v, nid):
     if n["k"] == "fn":
         return [(nid, 0)] if v in outs_of(n) else []
     if n["k"] == "gate":
-        return []
+        return [(nid, 0)] if v in outs_of(n) else []
     res = []
     for iv in all_outs(n["nodes"]):
         if n["rout"].get(iv, iv) == v:
@@ -220,10 +220,11 @@ def build(desc, name=None):
             objs.append(FunctionNode(_pyfunc("f_" + d["name"], d["ins"]), **kw))
         elif d["k"] == "gate":
             tg = [END if t == "END" else t for t in d["targets"]]
+            em = {"emit": tuple(d["emit"])} if d.get("emit") else {}
             if d["gk"] == "ifelse":
-                objs.append(IfElseNode(_pyfunc("g_" + d["name"], d["ins"], "True"), when_true=tg[0], when_false=tg[1], name=d["name"]))
+                objs.append(IfElseNode(_pyfunc("g_" + d["name"], d["ins"], "True"), when_true=tg[0], when_false=tg[1], name=d["name"], **em))
             else:
-                objs.append(RouteNode(_pyfunc("g_" + d["name"], d["ins"], "None"), targets=tg, name=d["name"]))
+                objs.append(RouteNode(_pyfunc("g_" + d["name"], d["ins"], "None"), targets=tg, name=d["name"], **em))
         else:
             gn = build(d["nodes"], name=d["name"]).as_node()
             if d["rin"]:
@@ -485,6 +486,16 @@ def family_siblings():
     yield [sub("A", [fn("h", ["x"], ["a", "a2"])]), sub("B", [fn("i", ["a"], ["b"])]), sub("C", [fn("j", ["w"], ["c"])], rin={"w": "a2"})], "siblings/fan-out"
 
 
+def family_gate_signals():
+    """Gates that EMIT an ordering signal (their only kind of output), at root and inside a container; and sibling
+    containers declared in non-alphabetical order."""
+    yield [gate("g", ["x"], ["a", "b"], emit=["S"]), fn("a", ["x"], ["p"]), fn("b", ["x"], ["q"]), fn("w", ["y"], ["r"], wait=["S"])], "gate-signal/flat"
+    yield [sub("A", [gate("g", ["x"], ["a", "END"], gk="route", emit=["S"]), fn("a", ["x"], ["p"]), fn("w", ["y"], ["r"], wait=["S"])]),
+           fn("q", ["p", "r"], ["t"])], "gate-signal/nested"
+    yield [sub("Z", [fn("h", ["x"], ["a"])]), sub("A", [fn("i", ["a", "y"], ["b"])]), fn("q", ["b"], ["t"])], "order/containers-not-alphabetical"
+    yield [sub("M", [sub("Z", [fn("h", ["x"], ["a"])]), sub("B", [fn("i", ["a"], ["b"])])]), fn("q", ["b"], ["t"])], "order/nested-containers-not-alphabetical"
+
+
 def family_declared():
     """Declared topologies with value-less ordering edges (explicit edges=[(a, b)]), flat and inside a container."""
     yield [fn("a", ["x"], ["p"]), fn("b", ["y"], ["q"], after=["a"]), fn("c", ["p", "q"], ["r"])], "declared/ordering-flat"
@@ -493,7 +504,7 @@ def family_declared():
     yield [fn("s", ["x"], ["v"]), sub("A", [fn("a", ["v"], ["p"]), fn("b", ["v"], ["q"], after=["a"]), fn("d", ["p", "q"], ["t"])])], "declared/ordering-nested-with-data"
 
 
-FAMILIES = [family_consumers, family_producers, family_control, family_ordering, family_inputs, family_renames, family_names, family_siblings, family_declared]
+FAMILIES = [family_consumers, family_producers, family_control, family_ordering, family_inputs, family_renames, family_names, family_siblings, family_declared, family_gate_signals]
 
 
 class RandomPrograms:
